@@ -734,6 +734,15 @@ fn directed<Ctx: ScriptContext>(w: &World, tap: bool, nk: usize) -> Vec<Ms<Ctx>>
     add(bin(T::AndV, v(un(T::ZeroNotEqual, pk(2))), pk(1)));
     add(bin(T::AndV, v(bin(T::OrI, pk(2), pk(3))), pk(1)));
     add(bin(T::AndV, v(xz()), pk(3)));
+    // tree height at the recursion limit (402): and_b(and_v(v:pk,pk), a:n:...:n:pk); the decoder
+    // re-associates and_v outwards, which makes the tree one level deeper
+    for wrappers in [396usize, 397, 398, 399] {
+        let mut deep = pk(2);
+        for _ in 0..wrappers {
+            deep = un(T::ZeroNotEqual, deep);
+        }
+        add(bin(T::AndB, xz(), un(T::Alt, deep)));
+    }
     out
 }
 
